@@ -30,11 +30,16 @@ def main():
     astfn = os.path.join(outdir, outname + '.ast.json')
     t0 = time.time()
     filters = cfg['filter'] if isinstance(cfg['filter'], list) else [cfg['filter']]
+    if cfg.get('equal_filters'):
+        # clang's heap layout - hence the node ids - depends on the LENGTH of the filter string (it is copied into heap
+        # strings whose chunk size follows the length): filters of one length give dumps whose ids agree, so each filter is
+        # cut to the length of the shortest (a filter is a substring match: a shorter one only dumps more)
+        k = min(len(f) for f in filters); filters = [f[:k] for f in filters]
     docs = []
     # node ids (addresses) are stable across clang runs on the same TU when ASLR is off: then a declaration referenced
     # from one dump can be looked up in another one by its id (checked below by running the first filter twice)
     pre = ['setarch', '-R'] if subprocess.run(['setarch', '-R', 'true'], capture_output=True).returncode == 0 else []
-    stable = None
+    stable = None; seen_ids = []; id_pairs = [0, 0]
     for flt in filters:
         cmd = pre + ['clang++', '-std=' + cfg.get('std', 'c++11'), '-I' + repo + '/include', '-fsyntax-only', '-Wno-everything', '-fgnuc-version=5.4.0',
                '-Xclang', '-ast-dump=json', '-Xclang', '-ast-dump-filter=' + flt, os.path.join(here, cfg['tu'])]
@@ -47,8 +52,28 @@ def main():
             ids1 = _re.findall(r'"id": "(0x[0-9a-f]+)"', open(astfn).read(20000000))[:200]
             r2 = subprocess.run(cmd, stdout=subprocess.PIPE, stderr=subprocess.PIPE, text=True)
             stable = (r2.returncode == 0 and _re.findall(r'"id": "(0x[0-9a-f]+)"', r2.stdout[:20000000])[:200] == ids1 and len(ids1) > 0)
-        docs += cxx2c.load_docs(astfn, prefix='D%d:' % len(docs))
+        nd = cxx2c.load_docs(astfn, prefix='D%d:' % len(docs))
+        # cross-dump agreement of node ids, measured on the function declarations (keyed by mangled name) two dumps share
+        def fids(ds):
+            m = {}
+            def w(n):
+                if isinstance(n, dict):
+                    if n.get('mangledName') and n.get('id') and n.get('loc'): m.setdefault((n.get('kind'), n['mangledName'], json.dumps(n.get('loc'), sort_keys=True)), n['id'].split(':', 1)[-1])
+                    for c in n.get('inner', []): w(c)
+            for d in ds: w(d)
+            return m
+        cur = fids(nd)
+        for prev in seen_ids:
+            common = set(prev) & set(cur)
+            id_pairs[0] += len(common); id_pairs[1] += sum(1 for k in common if prev[k] != cur[k])
+        seen_ids.append(cur)
+        docs += nd
     cfg = dict(cfg); cfg['stable_ids'] = bool(stable)
+    if id_pairs[1]:
+        msg = f'node ids of {id_pairs[1]} of {id_pairs[0]} declarations shared by two AST dumps of unit {unit} do not agree'
+        if cfg.get('equal_filters'):
+            print('ERROR extraction: ' + msg + ' (references across dumps would be resolved by fallbacks)'); sys.exit(2)
+        print('note: ' + msg + '; references across dumps fall back to name / type matching')
     if cfg.get('facts_only'):
         # a unit without functions: the enumerators of one record, folded by clang, become the macro SELECTION_FACTS
         vals = {}
